@@ -80,6 +80,7 @@ def check(rep, model, tier):
     window_tiling(rep, model)
     crossing_total(rep, model)
     py_division(rep, model)
+    never_copy(rep, model)
     common.roview(rep, model, PIPELINE)
     call_bind(rep, model)
     # shared clauses
@@ -334,6 +335,46 @@ def py_division(rep, model):
             rep.ok('PY-DIVISION', 'package', '-', found=f'{n} functions reachable from compute_features scanned; embedded example fires on the python-scalar division only')
     else:
         rep.unresolved('PY-DIVISION', 'embedded example', 'sa/rules/c01.py', f'the taint query no longer behaves as expected: {got}')
+
+
+def never_copy(rep, model):
+    """the installed numpy (major version consulted) reads `copy=False` in np.array / np.asarray as *never copy*: the call raises ValueError whenever the requested dtype or
+    layout needs a conversion (float32 / integer recordings, lists), where numpy 1 copied silently"""
+    import ast
+    from ..srcmodel import installed_versions
+    v = installed_versions().get('numpy', '0')
+    try:
+        major = int(v.split('.')[0])
+    except ValueError:
+        major = 0
+    rep.rule('NEVER-COPY', 'no function reachable from compute_features calls np.array / np.asarray with copy=False (numpy >= 2: "never copy" - raises ValueError for every input '
+                           'that needs a conversion, e.g. an integer or float32 recording with dtype=float64); use np.asarray(x, dtype) for copy-if-needed')
+
+    def hits(fnode, aliases=('np', 'numpy')):
+        out = []
+        for n in ast.walk(fnode):
+            if isinstance(n, ast.Call) and isinstance(n.func, ast.Attribute) and n.func.attr in ('array', 'asarray') and isinstance(n.func.value, ast.Name) \
+                    and n.func.value.id in aliases:
+                for k in n.keywords:
+                    if k.arg == 'copy' and isinstance(k.value, ast.Constant) and k.value.value is False:
+                        out.append((n.lineno, ast.unparse(n)))
+        return out
+    n_ = bad = 0
+    for q in sorted(common.reachable(model, ['compute_features'])):
+        f = model.funcs[q]
+        n_ += 1
+        for ln, txt in hits(f.node) if major >= 2 else ():
+            bad += 1
+            rep.violation('NEVER-COPY', f'{f.name}:{txt[:50]}', f'{f.path}:{ln} {f.name}', expected='a conversion that copies when needed (np.asarray(x, dtype) / astype)',
+                          found=f'{txt}: under numpy {v} this raises "Unable to avoid copy" for every input that is not already of the requested type, and no table is returned')
+    ex = ast.parse('def f(sig):\n    a = np.asarray(sig, dtype=float)\n    b = sig.astype(float, copy=False)\n    return np.array(sig, dtype="float64", copy=False)\n').body[0]
+    got = hits(ex)
+    if len(got) == 1 and 'np.array(sig' in got[0][1]:
+        if not bad:
+            rep.ok('NEVER-COPY', 'package', '-', found=f'{n_} functions reachable from compute_features scanned (numpy {v}' + ('' if major >= 2 else ': copy=False means copy-if-needed, rule not armed') + '); '
+                                                      'embedded example fires on np.array(..., copy=False) only')
+    else:
+        rep.unresolved('NEVER-COPY', 'embedded example', 'sa/rules/c01.py', f'the query no longer behaves as expected: {got}')
 
 
 def opt_forward(rep, model):
